@@ -428,6 +428,10 @@ REVERSALS = {
     "c02_unfix_cleanup_sequencing": "0022,0006",
     "c06_unfix_cleanup_failure_reported": "0022",
     "c18_unfix_traced_cls": "0021",
+    "c18_unfix_mimic_clobber": "0023",
+    "c18_unfix_self_keyword": "0026,0025",
+    "c18_unfix_class_access": "0026",
+    "c05_unfix_alias_arguments": "0024",
     "c02_unfix_enter_rollback": "0007",
     "c07_unfix_swallow": "0010",
     "c07_unfix_cancelled": "0011",
@@ -467,3 +471,7 @@ brk("c18_arguments_trace_drops_kwargs", [E("helpers.tracing.ArgumentsTrace", lam
 brk("c18_result_trace_none", [E("helpers.tracing.ResultTrace", lambda n: isinstance(n, ast.Return) and "result=" in U(n), to("return None"))], {"C18": ["C18.4"]})
 brk("c06_unfix_cleanup_failure_reported", [], {"C06": ["C06.8"], "C07": ["C07.8"]}, note="reverse of fix 0022")
 brk("c18_unfix_traced_cls", [], {"C18": ["C18.1"]}, note="reverse of fix 0021")
+brk("c18_unfix_mimic_clobber", [], {"C18": ["C18.7"]}, note="reverse of fix 0023")
+brk("c05_unfix_alias_arguments", [], {"C05": ["C05.13"]}, note="reverse of fix 0024")
+brk("c18_unfix_self_keyword", [], {"C18": ["C18.1"]}, note="reverse of fixes 0026, 0025")
+brk("c18_unfix_class_access", [], {"C18": ["C18.1"]}, note="reverse of fix 0026")
